@@ -16,6 +16,8 @@ DEVIATIONS = {"depth-limit-panic": "-maxdepth N / -mindepth N are accepted by th
 FRAMES = [   # expression skeletons; "@" marks option slots
     ["@"], ["@", "@"], ["@", "-name x"], ["@", "@", "-print"], ["-true", "@"], ["-true", "@", "-false"], ["(", "@", "-o", "-false", ")"],
     ["!", "@"], ["@", "-true", "@"], ["@", "-name x", "@", "@"], ["-size +1k", "@", ",", "-print"],
+    # an option glued to the token that follows it (no blank before ')' or ','), as every other primary may be written
+    ["(", "-name x", "@)"], ["-false", "@,", "-true"], ["(", "@)", "-o", "-print"],
 ]
 
 
@@ -24,7 +26,7 @@ def digit():
     return c, z3.And(z3.UGE(c, 48), z3.ULE(c, 57))
 
 
-def slot(tag, with_limits):
+def slot(tag, with_limits, tight=False):
     """returns (chars, assumptions, kind selector, value term (32 bit))"""
     d1, a1 = digit()
     d2, a2 = digit()
@@ -41,6 +43,12 @@ def slot(tag, with_limits):
                 full = list(o) + [d1, d2] + [" "] * (width - len(o) - 2)
             else:
                 full = list(o)
+            if tight:
+                # right-aligned: the word ends at the slot's last column, so that what follows is glued to it
+                body = [x for x in full]
+                while body and body[-1] == " ":
+                    body.pop()
+                full = [" "] * (width - len(body)) + body
             x = full[i]
             xt = z3.BitVecVal(ord(x), 32) if isinstance(x, str) else x
             t = z3.If(sel == k, xt, t)
@@ -80,13 +88,16 @@ def run(ctx, rep, tier):
             spec, ref_spec, assume, slots = [], [], [], []
             leading = True
             for wi, w in enumerate(frame):
-                if w == "@":
-                    ch, a, sel, val = slot("%d_%d_%d" % (with_limits, fi, wi), with_limits)
-                    spec += ch + [" "]
+                if w.startswith("@"):
+                    glue = w[1:]
+                    ch, a, sel, val = slot("%d_%d_%d" % (with_limits, fi, wi), with_limits, tight=bool(glue))
+                    spec += ch + ([glue, " "] if glue else [" "])
                     assume += a
                     slots.append((sel, val, leading))
                     # reference input: -true in inner position; nothing (blanks) in the leading run
                     ref_spec.append(("slot", sel, leading))
+                    if glue:
+                        ref_spec.append(glue)
                 else:
                     leading = False
                     spec += [w, " "]
